@@ -345,7 +345,7 @@ def visitor_meaning(rep, ex: Explorer):
     qual = f"{VIS}.visitVar"
     site = fn_label(prog, qual)
     n = 0
-    for text in ("Top", "Bottom", "a", "top", "bottom", "Topx", "T", "x_1", "TOP"):
+    for text in ("Top", "Bottom", "a", "top", "bottom", "Topx", "T", "x_1", "TOP", "a-b", "a_b", "x-1", "Bottom_", "a-b_c-d"):
         def setup_v(I, text=text):
             s = I.alloc(HObj(VIS, {"sigcheck": I.alloc(HList()), "signature": Sym("sig"), "visit": ExtV("antlr4.ParseTreeVisitor.visit")}))
             tok = I.alloc(HObj("antlr4.Token", {"text": Const(text)}))
@@ -366,7 +366,7 @@ def visitor_meaning(rep, ex: Explorer):
         else:
             ok = f is not None and f[0] == "atom" and (f[1] == text or f[1] == ("name", text) or f[1] == ("name", (text,)) or repr(f[1]).count(repr(text)) == 1 and "name" in repr(f[1]) or f[1] == ("c", text))
             rep.check(ok, "VISIT.meaning", site, f"atom {text}", "any other identifier denotes the atom of that name", extracted=F.show(f) if f else repr(rv), required=f"Symbol({text!r})", function=site)
-    rep.floor("visitVar evaluations", n, 9)
+    rep.floor("visitVar evaluations", n, 14)
     # VISIT.order: the list rules put their own item in front of what the rest of the input yields
     # the declared atoms, by evaluation on concrete parse trees of `myid` (num=ID ',' myid | num=ID NEWLINE) for one to four
     # names and every spelling of the line end the lexer accepts: the visitor returns the names, in order, nothing else
@@ -428,13 +428,16 @@ def visitor_meaning(rep, ex: Explorer):
     # f ')' NEWLINE*) for one to three conditionals: the result is the list of conditionals in file order, each with the
     # formula before the bar as consequence, the one after it as antecedence, and the text "(consequent|antecedent)"
     def var_node(I, name):
-        return I.alloc(HOpaque("ParseNode", {"rule": "formula", "visit": "visitVar", "text": Const(name), "labels": {"atom": tok(I, name)}, "kids": {"ID": [tok(I, name)]}, "nchildren": 1}))
+        # "name" or "name=text": a formula node that is visited as the atom `name` and whose source text is `text` (the text of a
+        # compound formula: the visitor's text handling sees it, its meaning is not the point here)
+        name, _, text = name.partition("=")
+        return I.alloc(HOpaque("ParseNode", {"rule": "formula", "visit": "visitVar", "text": Const(text or name), "labels": {"atom": tok(I, name)}, "kids": {"ID": [tok(I, name)]}, "nchildren": 1}))
 
     def condition_tree(I, pairs):
         node = None
         for c, a in reversed(pairs):
             cn, an = var_node(I, c), var_node(I, a)
-            own = f"({c}|{a})"
+            own = f"({c.partition('=')[2] or c}|{a.partition('=')[2] or a})"
             if node is None:
                 node = I.alloc(HOpaque("ParseNode", {"rule": "condition", "visit": "visitCondition", "text": Const(own), "labels": {"consequent": cn, "antecedent": an},
                                                      "kids": {"formula": [cn, an]}, "many": {"formula": True, "NEWLINE": True}, "absent": ("condition", "NEWLINE"), "nchildren": 5}))
@@ -446,7 +449,8 @@ def visitor_meaning(rep, ex: Explorer):
     qual_c = f"{VIS}.visitCondition"
     site_c = fn_label(prog, qual_c)
     n_cond = 0
-    for pairs in ([("b", "p")], [("f", "b"), ("b", "p")], [("w", "x_1"), ("f", "b"), ("Y", "w")], [("a", "a"), ("a", "a")]):
+    for pairs in ([("b", "p")], [("f", "b"), ("b", "p")], [("w", "x_1"), ("f", "b"), ("Y", "w")], [("a", "a"), ("a", "a")],
+                  [("k=(a;b),(c;d)", "e"), ("e", "m=(a;b),(c;d)"), ("n=(a,b)", "o=(c)"), ("q=!(a)", "r=((a))")]):
         held = {}
 
         def visit_tree_c(I, args, kwargs, node, held=held):
@@ -486,7 +490,7 @@ def visitor_meaning(rep, ex: Explorer):
             txt = oc.attrs.get("textRepresentation") if isinstance(oc, HObj) else None
             weak = oc.attrs.get("weak") if isinstance(oc, HObj) else None
             got.append((F.show(parts[1]) if parts else "?", F.show(parts[0]) if parts else "?", txt.value if isinstance(txt, Const) else repr(txt), weak.value if isinstance(weak, Const) else repr(weak)))
-        want = [(F.show(("atom", ("name", ("c", c)), "v")), F.show(("atom", ("name", ("c", a)), "v")), f"({c}|{a})", False) for c, a in pairs]
+        want = [(F.show(("atom", ("name", ("c", c.partition("=")[0])), "v")), F.show(("atom", ("name", ("c", a.partition("=")[0])), "v")), f"({c.partition('=')[2] or c}|{a.partition('=')[2] or a})", False) for c, a in pairs]
         got_cmp = [(g[0], g[1]) for g in got]
         want_cmp = [(w[0], w[1]) for w in want]
         rep.check(items is not None and len(got) == len(want) and sorted(got_cmp) == sorted(want_cmp) and all(_same_atom(g, w) for g, w in zip(sorted(got_cmp), sorted(want_cmp))), "VISIT.meaning", site_c, f"conditional ({slot})",
@@ -497,7 +501,7 @@ def visitor_meaning(rep, ex: Explorer):
         rep.check(items is not None and [g[2] for g in got] == [w[2] for w in want] if got_cmp == want_cmp else True, "VISIT.meaning", site_c, f"text representation ({slot})",
                   "the text is (consequent|antecedent), which re-parses to the same conditional", extracted=repr([g[2] for g in got])[:200], required=repr([w[2] for w in want]), function=site_c)
         rep.check(all(g[3] is False for g in got), "VISIT.meaning", site_c, f"strength ({slot})", "the conditionals of the file are strong ones", extracted=repr([g[3] for g in got]), required="weak=False", function=site_c)
-    rep.floor("condition trees evaluated", n_cond, 4)
+    rep.floor("condition trees evaluated", n_cond, 5)
     # REJECT.signature, by evaluation on concrete atom lists (what `visit(ctx.myid())` hands back): a list with a repeated
     # atom or with one of the reserved names Top / Bottom raises ValueError, any other list is returned as it is
     qual_s = f"{VIS}.visitSignature"
@@ -672,6 +676,12 @@ def reject(rep, ex: Explorer, grammar):
             calls = [(i, ev) for i, ev in enumerate(evs) if ev.kind == "opaque.call"]
             entries = [(i, ev) for i, ev in calls if ev.method == entry and ev.typ == "CKBParser"]
             if not entries:
+                if p.outcome[0] == "return":
+                    # a path that hands something back without the parser having read the text: whatever it returns was not
+                    # checked against the grammar (constants, keywords, malformed text all slip through)
+                    rep.violation("REJECT.input", site, "every accepted text is parsed", "a result is returned only after the entry rule of the grammar has read the whole text",
+                                  extracted=f"a path returns {p.outcome[1]!r} without invoking parser.{entry}() (decided by: {'; '.join(show_pred(k)[:60] for k, v in p.decisions[:3])})"[:300],
+                                  required=f"parser.{entry}() on every returning path", function=site)
                 continue
             n_entry += 1
             ei, eev = entries[0]
@@ -729,6 +739,32 @@ def reject(rep, ex: Explorer, grammar):
 # ----------------------------------------------------------------------------------------------
 # generated lexer: the serialized ATN against the grammar
 # ----------------------------------------------------------------------------------------------
+def fresh_results(rep, ex: Explorer):
+    """PARSE.fresh: every parse builds its own objects.  What the wrappers and the visitor hand back is mutable (a base with
+    its conditionals dictionary and signature list, a query collection) and callers change it; a result that is kept and
+    handed out again for the same text is the earlier caller's edited object.  Decided on the definitions: no function of
+    parser/Wrappers.py or parser/myVisitor.py is wrapped in a memoising decorator."""
+    prog = ex.prog
+    n = 0
+    MEMO = ("lru_cache", "cache", "cached_property", "memoize", "memoized", "cached")
+    for q, fi in sorted(prog.functions.items()):
+        if fi.module not in ("parser.Wrappers", "parser.myVisitor"):
+            continue
+        # (formulas are immutable, hash-consed pysmt nodes: keeping those is harmless; bases, query collections, lists and
+        # dictionaries are not)
+        ret = ast.unparse(fi.node.returns) if getattr(fi.node, "returns", None) is not None else ""
+        name = q.rsplit(".", 1)[1]
+        mutable = any(t in ret for t in ("BeliefBase", "Queries", "list", "dict", "List", "Dict")) or name in ("parseCKB", "parseQuery", "visitCkbs", "visitConditionals", "visitCondition", "visitSignature", "visitMyid")
+        if not mutable:
+            continue
+        n += 1
+        site = fn_label(prog, q)
+        bad = [d for d in fi.decorators if d.rsplit(".", 1)[-1].split("(")[0] in MEMO]
+        rep.check(not bad, "PARSE.fresh", site, "result not shared", "every parse builds its own base / query collection / formula list (callers edit what they get)",
+                  extracted=f"decorated with {bad[0]}: a second parse of the same text returns the object the first caller got" if bad else "no memoising decorator", required="a new object per call", function=site)
+    rep.floor("parser functions looked at for shared results", n, 4)
+
+
 def decode_atn(data):
     """Deserialize an ANTLR 4 (serialization version 4) ATN into states, rules, sets, edges and lexer actions."""
     pos = [0]
